@@ -180,6 +180,82 @@ def oracle(cases, order, impl, skeleton):
                 fails.append(dict(name="fetch-" + cid, base=cid, signature=F1_SIG,
                                   what="fetching a newer checkpoint from a source that reused sst numbers (%s r1=%s r2=%s): %s" % (c[1], c[2], c[3], out)))
             nontrivial.add(vlib.case_hash("\t".join(c)))
+        elif kind == "G":
+            # the chosen source must be an eligible peer (not the asker, answered yes, not our own directory)
+            lid, retry, rl = int(c[1]), int(c[2]), c[3] == "1"
+            peers = []
+            if len(c) > 6 and c[6] not in ("-", ""):
+                for e in c[6].split(","):
+                    r_, a_, ro_, m_, an_ = e.split(":")
+                    peers.append((int(r_), unh(a_).decode(), unh(ro_).decode(), unh(m_).decode(), an_))
+            elig = [p for p in peers if p[0] != lid and p[4] == "1" and not (p[1] == "127.0.0.1" and p[2] == "/mine")]
+            srcs = []
+            for p in elig:
+                if p[1] == "127.0.0.1" and not rl:
+                    srcs.append(("", p[2] + "/ns-0"))
+                else:
+                    srcs.append((p[1], p[3] + "/ns-0"))
+            if out == "none":
+                if elig:
+                    fails.append(dict(name="source-" + cid, base=cid, what="GetValidBackupInfo found no source although a peer holds the backup"))
+            elif out in ("panic", "wrong-request", "listenerr"):
+                fails.append(dict(name="source-" + cid, base=cid, what="GetValidBackupInfo: " + out))
+            else:
+                a_, d_ = out.split(" ")
+                got = (unh(a_).decode(), unh(d_).decode())
+                if got not in srcs:
+                    fails.append(dict(name="source-" + cid, base=cid, what="GetValidBackupInfo chose %r, not a peer that holds the requested backup" % (got,)))
+                nontrivial.add(vlib.case_hash("\t".join(c)))
+        elif kind == "H":
+            # reuse: every directory other than the new one keeps exactly its files and link structure
+            newn = "%016x-%016x" % (int(c[2], 16), int(c[3], 16))
+            if out == "panic":
+                stats["reuse_panics"] = stats.get("reuse_panics", 0) + 1
+                cand = [unh(e.split(":")[0]).decode("latin1") for e in (c[5].split(",") if len(c) > 5 and c[5] not in ("-", "") else [])]
+                if all(CANON.match(n) for n in cand):
+                    fails.append(dict(name="reuse-" + cid, base=cid, what="handleReuseOldCheckpoint panicked on a directory of well-formed names"))
+            elif not out.startswith("reused="):
+                fails.append(dict(name="reuse-" + cid, base=cid, what="handleReuseOldCheckpoint: " + out[:200]))
+            else:
+                def parse_dirs(s_):
+                    d = {}
+                    if s_ in ("-", ""):
+                        return d
+                    for e in s_.split(","):
+                        nm, info, fl = e.split(":")
+                        d[unh(nm).decode("latin1")] = (info, {} if fl == "-" else dict(y.split("=") for y in fl.split(".")))
+                    return d
+                before = parse_dirs(c[5] if len(c) > 5 else "-")
+                ru, after_s = out[7:].split(" ", 1)
+                after = parse_dirs(after_s)
+                def groups(dd, skipn):
+                    g = {}
+                    for nm, (info, fs) in dd.items():
+                        if nm == skipn:
+                            continue
+                        for f, ino in fs.items():
+                            g.setdefault(ino, set()).add((nm, f))
+                    return sorted(sorted(v) for v in g.values())
+                for nm, (info, fs) in before.items():
+                    if nm == newn:
+                        continue
+                    if nm not in after or after[nm][0] != info or set(after[nm][1]) != set(fs):
+                        fails.append(dict(name="reuse-" + cid, base=cid, what="handleReuseOldCheckpoint changed checkpoint %s, which is not the one being fetched" % nm))
+                if groups(before, newn) != groups(after, newn):
+                    fails.append(dict(name="reuse-" + cid, base=cid, what="handleReuseOldCheckpoint changed the hard-link structure of other checkpoints"))
+                if ru != "-":
+                    rn = unh(ru).decode("latin1")
+                    src = c[1]
+                    if rn == newn or rn not in before or before[rn][0] != src:
+                        fails.append(dict(name="reuse-" + cid, base=cid, what="handleReuseOldCheckpoint reused %s, which was not fetched from the same source" % rn))
+                    else:
+                        ssts = [f for f in after[rn][1] if unh(f).decode("latin1").endswith(".sst")]
+                        for f in ssts:
+                            if newn not in after or after[newn][1].get(f) != after[rn][1][f]:
+                                fails.append(dict(name="reuse-" + cid, base=cid, what="sst %s of the reused checkpoint is not hard-linked into the new directory" % unh(f).decode("latin1")))
+                        if ssts:
+                            stats["reuse_linked"] = stats.get("reuse_linked", 0) + 1
+                            nontrivial.add(vlib.case_hash("\t".join(c)))
         elif kind in ("CB", "CR", "CF"):
             stats["crash_cases"] = stats.get("crash_cases", 0) + 1
             good = {"CB": ("killed checkpoint-refused", "killed checkpoint-restores-exactly", "checkpoint-refused-or-exact"),
@@ -566,7 +642,7 @@ def run(ctx):
             byk = {}
             for cid in order:
                 byk.setdefault(cases[cid][0], cid)
-            for kd in ("P", "F", "TO", "L", "E", "I", "CB", "CR", "CF", "K"):
+            for kd in ("P", "F", "TO", "L", "G", "H", "E", "I", "CB", "CR", "CF", "K"):
                 if kd in byk:
                     cid = byk[kd]
                     samples.append(dict(case=[x[:160] for x in cases[cid]], impl=(impl.get(cid) or "")[:300]))
@@ -595,6 +671,9 @@ def run(ctx):
              "where the purge really removes; fetch of a checkpoint by the real kvStoreSM.PrepareSnapshot from the peer store); "
              "I: the production apply-loop schedule around a snapshot, many trials per engine on one store: apply, dump, GetSnapshot (Backup+WaitReady), "
              "apply further entries at once while the copy runs, GetData, RestoreFromSnapshot, dump; "
+             "G: node.GetValidBackupInfo against one HTTP stub per peer (same host / other host, own data root, refusing, unreachable; the stub rejects "
+             "any request that is not the checkbackup of exactly the requested snapshot); H: node.handleReuseOldCheckpoint on crafted backup directories "
+             "(source_node_info per checkpoint, shared hard links, the new directory present or not, from the same or another source); "
              "CB/CR/CF: a child process is killed (SIGKILL, with its cp child) inside a backup, a restore, a snapshot transfer — at each named crash point "
              "of rockredis.go and at random moments — and the store is restarted the way node/raft.go does; "
              "E: two checkpoints fetched and restored, the source falls back to its first checkpoint and reuses sst numbers with other content, third fetch; K: 32MB unflushed memtable + INCR traffic racing with the checkpoint copy. "
